@@ -128,3 +128,62 @@ func textAggUnit(prop, harness, sqlTmpl string, maxL int) fw.Result {
 	a.sample(map[string]any{"aggregates": textAggList, "alphabet": textAggAlphabet, "max_len": maxL})
 	return a.result()
 }
+
+// triggerLiteralUnit: TRIGGER WHEN last_value(t) = '<literal>' with literals that hold the other quote characters,
+// operators and keywords. The group fires exactly at the rows whose t is the literal (all t sequences of length <= 4
+// over {the literal, another text}); the result reports the rows since the last fire.
+func triggerLiteralUnit(prop, harness string) fw.Result {
+	a := newAcc(prop, harness)
+	lits := []string{"on", "5\" or more", "say \"a and b\"", "k\"=v", "a`=b", "x` and `y", "it\"s = 1 or 2", "o,n", "a = b", "not (x)", "1 >= 2"}
+	for _, lit := range lits {
+		sql := "SELECT k, count(*) AS n, last_value(t) AS lt FROM stream GROUP BY k, GLOBAL WINDOW TRIGGER WHEN last_value(t) = '" + lit + "'"
+		for L := 1; L <= 4; L++ {
+			sequences(L, 2, func(ix []int) {
+				var rows []Row
+				var want []string
+				n := 0
+				for i, x := range ix {
+					t := "other"
+					if x == 1 {
+						t = lit
+					}
+					rows = append(rows, Row{"k": "a", "id": i + 1, "t": t})
+					n++
+					if x == 1 {
+						want = append(want, fmt.Sprintf("n=%d lt=%s", n, lit))
+						n = 0
+					}
+				}
+				r := detExec(sql, detOpts{Eager: true, Horizon: 100 * vtime.Millisecond}, func(e *Env) {
+					for _, row := range rows {
+						e.Emit(copyVal(row).(map[string]any))
+					}
+				})
+				a.r.Evaluations++
+				a.r.States++
+				a.r.Transitions += int64(r.Steps)
+				if len(want) > 0 {
+					a.r.Nontrivial++
+				}
+				cs := map[string]any{"sql": sql, "rows": rows}
+				if r.ExecErr != "" || r.Status != sched.StatusOK {
+					a.fail(prop+"|trigger-literal|exec", r.ExecErr+" "+r.Status.String()+" "+firstLine(r.Panic), cs, nil, nil)
+					return
+				}
+				var got []string
+				for _, b := range r.Batches {
+					for _, row := range b {
+						c, _ := num(row["n"])
+						got = append(got, fmt.Sprintf("n=%d lt=%v", int(c), row["lt"]))
+					}
+				}
+				a.outcome(strings.Join(got, ";"))
+				if strings.Join(got, ";") != strings.Join(want, ";") {
+					a.fail(prop+"|trigger-literal|wrong-fires", fmt.Sprintf("%s over t = %s: fired %q, reference %q", sql, js(rows), got, want), cs, want, got)
+				}
+			})
+		}
+	}
+	a.sample(map[string]any{"literals": lits, "predicate": "last_value(t) = '<literal>'"})
+	return a.result()
+}
